@@ -31,6 +31,11 @@ type uploadCase struct {
 	// this many bytes (-1 = never; Size = after the last Write, before Close).
 	CancelAfter int  `json:"cancel_after"`
 	cancelSet   bool // matrix construction only
+	// AnswerBody: "" = a short complete body; "cl-short" = Content-Length
+	// announces 100000 bytes, 15 are sent; "chunked-open" = one chunk and no
+	// last-chunk. Only with 2xx answers and After "hold": the answer (status
+	// line and headers) is there, its body never completes.
+	AnswerBody string `json:"answer_body,omitempty"`
 }
 
 type event struct {
@@ -164,8 +169,15 @@ func (s *scriptedServer) serve() {
 			return
 		}
 		body := "scripted answer"
-		fmt.Fprintf(conn, "HTTP/1.1 %d %s\r\nContent-Type: text/plain\r\nContent-Length: %d\r\n%s\r\n%s",
-			s.cs.Status, http.StatusText(s.cs.Status), len(body), map[bool]string{true: "Connection: close\r\n", false: ""}[s.cs.After == "close"], body)
+		switch s.cs.AnswerBody {
+		case "cl-short":
+			fmt.Fprintf(conn, "HTTP/1.1 %d %s\r\nContent-Type: text/plain\r\nContent-Length: 100000\r\n\r\n%s", s.cs.Status, http.StatusText(s.cs.Status), body)
+		case "chunked-open":
+			fmt.Fprintf(conn, "HTTP/1.1 %d %s\r\nContent-Type: text/plain\r\nTransfer-Encoding: chunked\r\n\r\n%x\r\n%s\r\n", s.cs.Status, http.StatusText(s.cs.Status), len(body), body)
+		default:
+			fmt.Fprintf(conn, "HTTP/1.1 %d %s\r\nContent-Type: text/plain\r\nContent-Length: %d\r\n%s\r\n%s",
+				s.cs.Status, http.StatusText(s.cs.Status), len(body), map[bool]string{true: "Connection: close\r\n", false: ""}[s.cs.After == "close"], body)
+		}
 		s.rec.add("server", "answered", fmt.Sprint(s.cs.Status))
 	}
 	readRaw := func(n int) int {
@@ -500,8 +512,11 @@ wait:
 	}
 	c.JournalDone()
 	c.Eval(1)
-	c.Distinct(fmt.Sprintf("%s|%d|k=%s|%s|size=%d|chunk=%d|%s|cancel=%d", cs.Script, cs.Status, kClass(cs), cs.After, cs.Size, cs.Chunk, cs.Caller, cs.CancelAfter))
+	c.Distinct(fmt.Sprintf("%s|%d|k=%s|%s|size=%d|chunk=%d|%s|cancel=%d|%s", cs.Script, cs.Status, kClass(cs), cs.After, cs.Size, cs.Chunk, cs.Caller, cs.CancelAfter, cs.AnswerBody))
 	cellKey := fmt.Sprintf("upload|%s|status=%d|%s", cs.Script, cs.Status, cs.After)
+	if cs.AnswerBody != "" {
+		cellKey += "|answer-body-" + cs.AnswerBody
+	}
 	wit := func() interface{} {
 		return map[string]interface{}{"case": cs, "events": rec.dump(), "written": res.written, "write_errors": res.writeErrs, "first_write_error": res.firstWErr, "close_error": fw.ErrString(res.closeErr)}
 	}
@@ -635,6 +650,11 @@ func uploadMatrix(thorough bool) []uploadCase {
 					add(uploadCase{Script: "read-all-then-answer", Status: st, ReadK: -1, After: "close"})
 				}
 				add(uploadCase{Script: "read-all-then-answer", Status: 500, ReadK: -1, After: "drain"})
+				// a 2xx answer whose body never completes, the connection staying open
+				for _, ab := range []string{"cl-short", "chunked-open"} {
+					add(uploadCase{Script: "read-all-then-answer", Status: 201, ReadK: -1, After: "hold", AnswerBody: ab})
+					add(uploadCase{Script: "answer-before-reading", Status: 200, After: "hold", AnswerBody: ab})
+				}
 				ks := []int{0}
 				if size > 10 {
 					ks = []int{0, 1000, size / 2}
